@@ -225,6 +225,16 @@ theorem witness_superset_exact_isAny :
     mem superset_exact_isAny_v superset_exact_isAny_A = false ∧
     superset_exact_isAny_A.anyUnknown Unknown.exactIsAny = true := by decide
 
+/-! `o.c19.canon  ⇥  [ [ re:612b ] ]  ⇥  K - C { } E K bifon C { } I bifotrnAO C { } I bifonAO _`:
+    `canonicalize` loses a member. -/
+def canon_loses_K : Kind :=
+  (Kind.mk {} (.some (.mk .nil (.exact (Kind.mk { bytes := true, integer := true, float := true, boolean := true, null := true } (.some (.mk .nil (.infinite { bytes := true, integer := true, float := true, boolean := true, timestamp := true, regex := true, null := true, array := true, object := true }))) (.some (.mk .nil (.infinite { bytes := true, integer := true, float := true, boolean := true, null := true, array := true, object := true }))))))) .none)
+def canon_loses_v : Value :=
+  (.arr (.cons (.arr (.cons (.regex [97, 43]) .nil)) .nil))
+theorem witness_canon_loses_member :
+    mem canon_loses_v canon_loses_K = true ∧ canonLawM canon_loses_v canon_loses_K = false ∧
+    canonClass canon_loses_K = .canon_exact_to_infinite := by decide
+
 /-! ### non-vacuity of the hypotheses of the `_partial` theorems (concrete, non-trivial states) -/
 
 def nv_K : Kind :=
@@ -239,7 +249,7 @@ def nv_B : Kind :=
 example : nv_v.Sorted = true ∧ mem nv_v nv_K = true ∧ nv_K.SortedK = true ∧
     atClass nv_K [.field [97], .index (-1)] = .none ∧ atClass nv_K [.field [99]] = .none ∧
     Spec.nonNegPath [.field [97], .index 3] = true ∧
-    anyOnPath optionalIdx nv_K [.field [97], .index 3] = false := by decide
+    anyOnInsertPath optionalIdx nv_K [.field [97], .index 3] = false := by decide
 
 /-- `union_sound_partial`, `superset_sound_partial`, `mem_iff_superset_partial`. -/
 example : nv_K.SortedK = true ∧ nv_B.SortedK = true ∧ unionClass nv_K nv_B = .none ∧
@@ -247,10 +257,10 @@ example : nv_K.SortedK = true ∧ nv_B.SortedK = true ∧ unionClass nv_K nv_B =
     nv_K.isSuperset nv_v.kindOf = true := by decide
 
 /-- `insert_sound_partial` needs the kind met at each segment not to be a union with that segment's
-    collection state: `nv_K` at `.a` is `integer or array`, so `.a[3]` is in `D_insert_union_alt`
-    (and so is any path through an `any` kind, which is a union); `.b` and `.c` are not. -/
-example : anyOnPath unionAlt nv_K [.field [97], .index 3] = true ∧
-    anyOnPath unionAlt nv_K [.field [98]] = false ∧ anyOnPath unionAlt nv_K [.field [99]] = false ∧
-    anyOnPath optionalIdx nv_K [.field [99]] = false := by decide
+    collection state and a required known entry: `nv_K` at `.a` is `integer or [bytes, …float]`, so
+    `.a[3]` is in `D_insert_union_alt`; `.c.d[2]` (through the unknown `any` fields) is not. -/
+example : anyOnInsertPath unionAltReq nv_K [.field [97], .index 3] = true ∧
+    anyOnInsertPath unionAltReq nv_K [.field [99], .field [100], .index 2] = false ∧
+    anyOnInsertPath optionalIdx nv_K [.field [99], .field [100], .index 2] = false := by decide
 
 end C19.W
